@@ -344,6 +344,12 @@ var solvers = []Solver{
 	{"z3-5.1.0-ematch-noext", func(f string, to int) []string {
 		return []string{"z3-new", fmt.Sprintf("-T:%d", to), "smt.auto_config=false", "smt.mbqi=false", "smt.array.extensional=false", f}
 	}},
+	// the same with relevancy filtering off: by default only terms of literals relevant to the current case split take part
+	// in E-matching; a goal that is a conjunction of facts about one skolem index is refuted branch by branch, and in
+	// each branch the terms of the other conjuncts (needed to reach the hypotheses' triggers) are filtered out
+	{"z3-5.1.0-ematch-noext-norel", func(f string, to int) []string {
+		return []string{"z3-new", fmt.Sprintf("-T:%d", to), "smt.auto_config=false", "smt.mbqi=false", "smt.array.extensional=false", "smt.relevancy=0", f}
+	}},
 	{"cvc5-1.0.3", func(f string, to int) []string {
 		return []string{"cvc5", fmt.Sprintf("--tlimit=%d", to*1000), f}
 	}},
@@ -391,11 +397,13 @@ func Solve(file string, timeout int, quickFirst bool) solveOut {
 		if r.answer == "sat" || r.answer == "unsat" {
 			return r
 		}
-		for _, s := range solvers {
-			if s.Name == "z3-5.1.0-ematch-noext" {
-				r := runSolver(context.Background(), s, file, min(8, timeout))
-				if r.answer == "unsat" {
-					return r
+		for _, name := range []string{"z3-5.1.0-ematch-noext", "z3-5.1.0-ematch-noext-norel"} {
+			for _, s := range solvers {
+				if s.Name == name {
+					r := runSolver(context.Background(), s, file, min(8, timeout))
+					if r.answer == "unsat" {
+						return r
+					}
 				}
 			}
 		}
